@@ -259,7 +259,9 @@ class Known:
             pred = mt.get("pred")
             if pred:
                 try:
-                    if not eval(pred, {"__builtins__": {}}, dict(ctx, len=len, min=min, max=max, any=any, all=all)):
+                    env = dict(ctx, len=len, min=min, max=max, any=any, all=all, enumerate=enumerate, range=range)
+                    env["__builtins__"] = {}
+                    if not eval(pred, env):   # (one namespace: generator expressions only see globals)
                         continue
                 except Exception:
                     continue
